@@ -151,6 +151,16 @@ example : okHist hist = true := by decide
 example : isDelivery (run {} hist) (worldAfter hist) deliv = true := by decide
 example : isDelivery (run {} hist) (worldAfter hist) deliv2 = true := by decide
 example : dump (run {} (hist ++ [.migrate])) = dump (run {} (deliv ++ [.migrate])) := by decide
+
+/-- after fix 7265fb2 a pod may change label and request while it stays in the default group: the refreshed cached
+    object is what the later migration moves -/
+def r1 : PodObj := { id := 9, label := 0, ns := 9, req := 10, node := true, term := false, rv := 1 }
+def r2 : PodObj := { r1 with label := 6, req := 20, rv := 2 }
+def qD : QObj := { name := 6, own := false, nss := [] }
+def hist2 : List Op := [.padd r1, .pupd r1 r2, .qput qD]
+example : okHist hist2 = true := by decide
+example : isDelivery (run {} hist2) (worldAfter hist2) [.qput qD, .padd r2] = true := by decide
+example : dump (run {} (hist2 ++ [.migrate])) = ["q 1 0 0 0", "q 2 0 0 0", "q 6 20 20 1 9 1"] := by decide
 end Ex
 
 /-! ### each hypothesis is needed -/
